@@ -228,10 +228,13 @@ fn psig_n<const N: usize>(rng: &mut StdRng, thorough: bool, out: &mut Vec<Value>
                             // the builder draws its own blinding factor first: script it to the chosen value
                             let mut brng = Scripted::new(vec![Draw::Scalar(bf.to_bytes())], 5);
                             let b = SignatureRequestProofBuilder::<N>::generate_proof_commitments(&mut brng, Message::<N>::new(mv), &[None; N], &pk);
-                            assert_eq!(b.message_blinding_factor().as_scalar(), bf);
+                            let reported = b.message_blinding_factor().as_scalar();
                             let c = ChallengeBuilder::new().with(&b).finish();
                             let p = b.generate_proof_response(c);
                             let vbm = p.verify_knowledge_of_opening(&pk, c).expect("honest request verifies");
+                            // (harness assumption, checked only once the library accepted its own request: the builder's
+                            //  blinding factor is its first scalar draw)
+                            assert_eq!(reported, bf);
                             let _ = &mut r2;
                             SigObj::Blinded(vbm.blind_sign(&kp, &mut srng))
                         }
